@@ -59,6 +59,7 @@ fn main() {
         "C04" => props::c04::run(&ctx),
         "C05" => props::c05::run(&ctx),
         "C12" => props::c12::run(&ctx),
+        "C13" => props::c13::run(&ctx),
         "C16" => props::c16::run(&ctx),
         "C18" => props::c18::run(&ctx),
         _ => {
